@@ -11,7 +11,7 @@ from . import c01, c02
 from .indexfx import index_effects
 
 PROP = "C03"
-FLOORS = {"C03.R1": 7, "C03.R2": 4, "C03.R3": 4, "C03.R4": 4, "C03.R5": 3, "C03.R6": 1, "C03.R7": 6}
+FLOORS = {"C03.R1": 7, "C03.R2": 4, "C03.R3": 4, "C03.R4": 4, "C03.R5": 3, "C03.R6": 1, "C03.R7": 4}
 META = {
     "explanation": "register and unregister are summarised into symbolic index effects (index, key term, value term, +/-, "
                    "iteration space) and compared as inverses including multiplicity; every re-definition path (set_value, load) "
